@@ -135,6 +135,8 @@ C11 = [
     _tp("hwloc_obj_attr_snprintf", "hp_hwloc_obj_attr_snprintf", 6, cost=60, plain_loop_contracts=True,
         fallback_plain={"defines": {"BUFMAX": 8, "PIECE_MAX": 16, "INFOMAX": 2}, "unwind": 6},
         note="snprintf contract + termination for every type, attribute content, flag word, separator (<=2 chars), <= 8 info pairs (strings <= 3 chars), buffers 0..64; info loop closed by the cursor-triple invariant; strchr of libc as modelled by cbmc (unwound 6 times)"),
+    _tp("hwloc_type_sscanf", "hp_hwloc_type_sscanf", 20, cost=120, label="bounded", defs={"TLEN": 4}, timeout=900,
+        note="arbitrary NUL-terminated string of <= 4 bytes (all byte values), attributes requested or not: returns 0/-1, memory safe, accepted strings give a valid type; strtol contract stub, strncasecmp model; loops unwound 20 times"),
     _tp("hwloc_compare_types", "hp_hwloc_compare_types", 2, cost=5, driver="topology.drv.c",
         note="antisymmetry, Machine highest, PU deepest, kind predicates vs documented kinds, transitivity, order tables are inverse permutations: all type triples (loop-free, complete)"),
 ]
